@@ -65,7 +65,7 @@ def proof_stage(pid, spec, tier, log):
     os.makedirs(os.path.join(LEAN, ".audit"), exist_ok=True)
     audit = os.path.join(LEAN, ".audit", f"{pid}.lean")
     with open(audit, "w") as fh:
-        for m in mods:
+        for m in mods + ["CasModel.Proofs.WalGhost"]:
             fh.write(f"import {m}\n")
         fh.write("open CasModel CasModel.Ghost\n")
         for t in spec["obligations"]:
